@@ -654,6 +654,138 @@ pub fn fill_states_case(mut i: u64) -> RipCase {
 }
 
 // ---------------------------------------------------------------------------------------------------------
+// buttons part: RIP_BUTTON is steered by the flag bits of an earlier RIP_BUTTON_STYLE; the flag bits are a table dimension.
+// styles part: the other style-then-draw pairs (font style x text, write mode x text)
+
+fn button_style(wid: u32, hgt: u32, flags: u32, bevel: u32, flags2: u32) -> RipSeg {
+    // label orientation 02 (centre); the other orientations are not implemented
+    mk(1, b'B', &[(2, wid), (2, hgt), (2, 2), (4, flags), (2, bevel), (2, 15), (2, 8), (2, 15), (2, 8), (2, 7), (2, 0), (2, flags2), (2, 14), (2, 7), (6, 0)], b"")
+}
+
+fn button(hotkey: u32, text: &str) -> RipSeg {
+    let mut p: Vec<char> = Vec::new();
+    for (w, v) in [(2usize, 20u32), (2, 20), (2, 120), (2, 70), (2, hotkey), (1, 0), (1, 0)] {
+        p.extend(b36(w, v).iter().map(|b| *b as char));
+    }
+    p.extend(text.chars());
+    RipSeg { lvl: 1, cmd: b'U', params: Text(p), term: 1, cont: 255 }
+}
+
+const UNDERLINE: u32 = 2048;
+const HIGHLIGHT2: u32 = 2;
+
+/// (flags, flags2): none, every single bit of both fields, all bits, every pair with the underline bit, and the same with
+/// the hot-key highlight bit of the second field
+fn flag_sets() -> Vec<(u32, u32)> {
+    let mut v = vec![(0, 0), (0xFFFF, 0), (0xFFFF, 0x7FF), (0xF_FFFF, 1295)];
+    for b in 0..20 {
+        v.push((1 << b, 0));
+        v.push((1 << b, HIGHLIGHT2));
+        if 1 << b != UNDERLINE {
+            v.push((UNDERLINE | 1 << b, 0));
+            v.push((UNDERLINE | 1 << b, HIGHLIGHT2));
+        }
+    }
+    for b in 0..11 {
+        v.push((0, 1 << b));
+        v.push((UNDERLINE, 1 << b));
+    }
+    v
+}
+
+const SIZES: [(u32, u32, u32); 5] = [(10, 10, 2), (0, 0, 0), (1, 1, 1), (1295, 1295, 1295), (0, 0, 1295)];
+/// hot-key codes: none, 'A', 'x', '#', DEL, 0x80, e acute, 0xFF, ZZ
+const HOTKEYS: [u32; 9] = [0, 65, 120, 35, 0x7F, 0x80, 0xE9, 0xFF, 1295];
+/// label alphabets: ASCII, Latin-1 (with the hot keys 0x80, e acute, 0xFF in them), above U+00FF, empty, text variable
+const LABELS: [&str; 6] = ["Ab x", "Caf\u{e9} \u{80}\u{ff}x", "\u{20ac}\u{2588}Ax", "", "$DATE$x", "\u{e9}"];
+/// text layouts: number of `<>` separators 0..=4, icon and host-command slots empty and filled ({} = the label)
+const LAYOUTS: [&str; 9] = ["{}", "<>{}", "I.ICN<>{}", "<>{}<>", "<>{}<>cmd^M", "I.ICN<>{}<>cmd^M", "I<>{}<>c<>", "<><>{}<>c", "I<>{}<>c<>x<>y"];
+const PAIRS: [(u32, &str); 6] = [(65, "<>Ab<>c"), (0xE9, "<>Caf\u{e9}<>c"), (0xE9, "<>x\u{e9}"), (0, "<>Ab"), (120, "<>\u{20ac}x"), (0xFF, "<>\u{ff}")];
+const FEW_FLAGS: [(u32, u32); 8] = [(0, 0), (UNDERLINE, 0), (UNDERLINE | 32, 0), (0, HIGHLIGHT2), (UNDERLINE, HIGHLIGHT2), (0xFFFF, 0x7FF), (128, 0), (4096 | UNDERLINE, 0)];
+
+pub struct Buttons {
+    flags: Vec<(u32, u32)>,
+}
+
+impl Buttons {
+    pub fn new() -> Buttons {
+        Buttons { flags: flag_sets() }
+    }
+    fn n_a(&self) -> u64 {
+        (self.flags.len() * SIZES.len() * PAIRS.len()) as u64
+    }
+    pub fn total(&self) -> u64 {
+        self.n_a() + (FEW_FLAGS.len() * HOTKEYS.len() * LABELS.len() * LAYOUTS.len()) as u64
+    }
+    pub fn case(&self, mut i: u64) -> RipCase {
+        let (style, btn) = if i < self.n_a() {
+            // every flag set x sizes x a few (hot key, text) pairs
+            let (hk, text) = PAIRS[(i % PAIRS.len() as u64) as usize];
+            i /= PAIRS.len() as u64;
+            let (w, h, bev) = SIZES[(i % SIZES.len() as u64) as usize];
+            let (f, f2) = self.flags[(i / SIZES.len() as u64) as usize];
+            (button_style(w, h, f, bev, f2), button(hk, text))
+        } else {
+            // every hot key x label x layout x the flag sets that look at the hot key
+            i -= self.n_a();
+            let layout = LAYOUTS[(i % LAYOUTS.len() as u64) as usize];
+            i /= LAYOUTS.len() as u64;
+            let label = LABELS[(i % LABELS.len() as u64) as usize];
+            i /= LABELS.len() as u64;
+            let hk = HOTKEYS[(i % HOTKEYS.len() as u64) as usize];
+            let (f, f2) = FEW_FLAGS[(i / HOTKEYS.len() as u64) as usize];
+            (button_style(10, 10, f, 2, f2), button(hk, &layout.replace("{}", label)))
+        };
+        RipCase { prefix: 0, segs: vec![style, btn] }
+    }
+}
+
+/// font style x direction x size x write mode, then a text command with a short or a long text of each alphabet
+pub fn styles_total() -> u64 {
+    12 * 2 * 3 * 5 * 2 * 5 * 2
+}
+
+pub fn styles_case(mut i: u64) -> RipCase {
+    let long = i % 2 == 1;
+    i /= 2;
+    let a = (i % 5) as usize;
+    i /= 5;
+    let at = i % 2 == 1;
+    i /= 2;
+    let mode = (i % 5) as u32;
+    i /= 5;
+    let size = [1, 4, 10][(i % 3) as usize];
+    i /= 3;
+    let dir = (i % 2) as u32;
+    let font = (i / 2) as u32;
+    let mut params: Vec<char> = Vec::new();
+    if at {
+        params.extend(b36(2, 600).iter().chain(b36(2, 330).iter()).map(|b| *b as char));
+    }
+    params.extend(grid_text(if long { 130 } else { 3 }, alphabet(a), true));
+    RipCase {
+        prefix: 0,
+        segs: vec![
+            mk(0, b'Y', &[(2, font), (2, dir), (2, size), (2, 0)], b""),
+            mk(0, b'W', &[(2, mode)], b""),
+            RipSeg { lvl: 0, cmd: if at { b'@' } else { b'T' }, params: Text(params), term: 1, cont: 255 },
+        ],
+    }
+}
+
+/// random style (any flag bits) followed by a button whose hot key may be outside ASCII
+fn button_group() -> BoxedStrategy<Vec<RipSeg>> {
+    (any::<u32>(), 0u32..2048, 0usize..SIZES.len(), 0usize..HOTKEYS.len(), 0usize..LABELS.len(), 0usize..LAYOUTS.len())
+        .prop_map(|(f, f2, sz, hk, la, ly)| {
+            let (w, h, bev) = SIZES[sz];
+            // the interesting bits are the low 16; keep them dense
+            let flags = (f & 0xFFFF) | if f & 0x10000 != 0 { UNDERLINE } else { 0 };
+            vec![button_style(w, h, flags, bev, f2.min(1295)), button(HOTKEYS[hk], &LAYOUTS[ly].replace("{}", LABELS[la]))]
+        })
+        .boxed()
+}
+
+// ---------------------------------------------------------------------------------------------------------
 // random part
 
 const JUNK: &[u8] = b" -.,;:$^<>~*#@_/()[]{}\\\x1b\x00\x7f\xe4\xff?+=&%\"'";
@@ -796,10 +928,13 @@ pub fn seg_strategy() -> BoxedStrategy<RipSeg> {
 }
 
 pub fn case_strategy(max_segs: usize) -> BoxedStrategy<RipCase> {
-    // one segment, or (1 in 12) a "prepare the canvas, choose the fill, fill / get / put" group taken from the fill_states grid
+    // one segment, or a group: "prepare the canvas, choose the fill, fill / get / put" (fill_states grid), "button style with
+    // random flag bits, then a button", "font style, write mode, text"
     let group = prop_oneof![
-        11 => seg_strategy().prop_map(|s| vec![s]),
-        1 => any::<u32>().prop_map(|i| fill_states_case(i as u64 % fill_states_total()).segs),
+        20 => seg_strategy().prop_map(|s| vec![s]),
+        2 => any::<u32>().prop_map(|i| fill_states_case(i as u64 % fill_states_total()).segs),
+        2 => button_group(),
+        1 => any::<u32>().prop_map(|i| styles_case(i as u64 % styles_total()).segs),
     ];
     (prop_oneof![3 => Just(0u8), 1 => Just(1u8)], vec(group, 1..=max_segs))
         .prop_map(move |(prefix, groups)| {
